@@ -61,6 +61,8 @@ type Engine struct {
 	seed       int64
 	logSmt     string
 	sampleBudget atomic.Int64
+	rtypeMu      sync.Mutex
+	rtypes       map[string]*Value
 }
 
 func (e *Engine) noteInitStop(pkg, msg string) {
@@ -366,6 +368,15 @@ var stubSets = map[string][]string{
 		"(reflect.Value).IsNil = verifReflectIsNil",
 		"(reflect.Value).Interface = verifReflectInterface",
 		repoPkg + ".deserializeParams = verifDeserializeParams",
+	},
+	// pipe-session scaffolding (harness/common/pipe.go)
+	"pipe": {
+		repoPkg + ".serializeArrowSerializable = verifSerializeArrowSerializable",
+		repoPkg + ".serializeResult = verifSerializeResult",
+		repoPkg + ".SerializeRequestBatch = verifSerializeRequestBatch",
+		"(*" + repoPkg + ".Server).ProtocolHash = verifXProtocolHash",
+		"encoding/json.Marshal = verifJSONMarshal",
+		"crypto/rand.Read = verifRandRead",
 	},
 	// HTTP handler scaffolding (harness/common/httpx.go)
 	"httpx": {
